@@ -269,8 +269,10 @@ pub fn check_pawns(ctx: &mut Ctx, noise: &[u64]) -> Result<(), Violation> {
                     let qui = get_pawn_quiets(sa, c, BitBoard::new(bl)).0;
                     let all = get_pawn_moves(sa, c, BitBoard::new(bl)).0;
                     if !defined {
-                        ctx.class("pawn:on-back-rank(no-crash-only)");
-                        continue;
+                        // first / last rank: no pawn can stand there, but the attack table is also
+                        // used from king squares, and the movement rule still defines the sets
+                        // (nothing beyond the board edge, no double step)
+                        ctx.class("pawn:on-first-or-last-rank");
                     }
                     if pat != 0 {
                         ctx.nontrivial(fp(&(a, c == Color::White, pat, j as u64 % 2)));
@@ -309,7 +311,7 @@ pub fn run(cfg: &Cfg) -> i32 {
     engine::finish(
         report,
         EvidenceSpec {
-            rule: "cases = every argument of every exported geometry function: 64 squares (conversions, named constants, Display, 12 step helpers incl. wrapping variants, king/knight tables, rook/bishop rays), 64x64 pairs (between for all, line for aligned distinct pairs), 8 ranks/files (masks, adjacent files, from_index wrap, up/down/left/right), colours; pawn attacks/quiets/moves for 64 squares x 2 colours x all 16 occupancy patterns of the four relevant squares x generated noise on the other squares (asserted for ranks 2-7, crash-only on ranks 1/8). evaluations = function results compared. Non-trivial = aligned pair, or pawn call with at least one relevant square occupied; distinct = argument fingerprints.".into(),
+            rule: "cases = every argument of every exported geometry function: 64 squares (conversions, named constants, Display, 12 step helpers incl. wrapping variants, king/knight tables, rook/bishop rays), 64x64 pairs (between for all, line for aligned distinct pairs), 8 ranks/files (masks, adjacent files, from_index wrap, up/down/left/right), colours; pawn attacks/quiets/moves for 64 squares x 2 colours x all 16 occupancy patterns of the four relevant squares x generated noise on the other squares (all 64 squares, including the first and last rank where the sets are what the movement rule leaves on the board). evaluations = function results compared. Non-trivial = aligned pair, or pawn call with at least one relevant square occupied; distinct = argument fingerprints.".into(),
             assumptions: vec!["coordinate arithmetic oracle written from the definitions (file = index mod 8, rank = index div 8)".into()],
             trusted_base: vec!["harness/src/props/c16.rs oracle functions".into(), "proptest 1.11 (noise)".into()],
             exhaustive: Some(true),
